@@ -747,6 +747,7 @@ type pathExplorer struct {
 	env   map[string]bool   // propositions fixed on this path
 	asg   map[string]bool   // gate key -> outcome on this path
 	sub   map[string]uint64 // 0/1-valued extraction atoms fixed on this path
+	hi    map[string]uint64 // upper bounds of terms, from propositions "c < T" fixed false on this path
 	paths int
 	over  bool
 	note  string
@@ -757,7 +758,7 @@ func newExplorer(o absint.Ops, bc *absint.BoolCtx, forced map[string]bool) *path
 		oo := o
 		bc.O = &oo
 	}
-	pe := &pathExplorer{o: o, bc: bc, env: map[string]bool{}, asg: map[string]bool{}, sub: map[string]uint64{}}
+	pe := &pathExplorer{o: o, bc: bc, env: map[string]bool{}, asg: map[string]bool{}, sub: map[string]uint64{}, hi: map[string]uint64{}}
 	for k, v := range forced {
 		pe.env[k] = v
 	}
@@ -796,7 +797,25 @@ func (pe *pathExplorer) branch(e *absint.BExpr, k func(bool)) {
 			return
 		}
 		pe.env[v] = b
+		// "c < T" false is the bound T <= c
+		bname := ""
+		if !b && strings.HasPrefix(v, "lt(") {
+			var c uint64
+			if i := strings.Index(v, ","); i > 3 {
+				if _, err := fmt.Sscanf(v[3:i], "%x", &c); err == nil && strings.TrimLeft(v[3:i], "0123456789abcdef") == "" {
+					bname = strings.TrimSuffix(v[i+1:], ")")
+					if old, had := pe.hi[bname]; had && old <= c {
+						bname = ""
+					} else {
+						pe.hi[bname] = c
+					}
+				}
+			}
+		}
 		pe.branch(e, k)
+		if bname != "" {
+			delete(pe.hi, bname)
+		}
 		delete(pe.env, v)
 	}
 }
@@ -825,7 +844,7 @@ func (pe *pathExplorer) resolve(l *absint.Lin, k func(*absint.Int)) {
 	if pe.over {
 		return
 	}
-	v := pe.o.RebuildSubst(l, pe.asg, pe.sub)
+	v := pe.o.RebuildBounded(l, pe.asg, pe.sub, pe.hi)
 	conds := map[string]bool{}
 	absint.IteConds(v.Lin, conds)
 	if len(conds) == 0 {
@@ -879,7 +898,7 @@ func (pe *pathExplorer) resolve(l *absint.Lin, k func(*absint.Int)) {
 		if x == nil || y == nil {
 			continue
 		}
-		xr, yr := pe.o.RebuildSubst(x.Lin, pe.asg, pe.sub), pe.o.RebuildSubst(y.Lin, pe.asg, pe.sub)
+		xr, yr := pe.o.RebuildBounded(x.Lin, pe.asg, pe.sub, pe.hi), pe.o.RebuildBounded(y.Lin, pe.asg, pe.sub, pe.hi)
 		// bit-extraction atoms inside the operands are propositions as well
 		if a, e := pe.reducibleBitAtom(xr.Lin, yr.Lin); a != nil {
 			pe.branch(e, func(out bool) {
